@@ -13,6 +13,7 @@ CONSTANTS
   L2PerPrune = 1
   AssumeFinality = FALSE
   AssumeSlowL1 = FALSE
+  FixHashChecks = FALSE
 INIT TraceInit
 NEXT TraceNext
 CONSTRAINT TraceConstraint
